@@ -256,26 +256,31 @@ def c14_complement_table():
     translation table is rebuilt from the literals in the source as an SMT array and decided for all 256 byte
     values; reverse_complement(x) = x[::-1].translate(T), so rc(rc(x))[i] = T[T[x[i]]]."""
     a, b = _complement_table()
-    T = z3.K(smt.Int, z3.IntVal(-1))
     x = z3.Int("x")
-    ident = z3.Array("ident", smt.Int, smt.Int)
-    tbl = ident
-    for p, q in zip(a, b):
-        tbl = z3.Store(tbl, p, q)
-    pc = [z3.ForAll([x], ident[x] == x), 0 <= x, x < 256]
+
+    def table(pairs):
+        # bytes.maketrans(a, b): position by position, later entries win, every other byte maps to itself
+        def f(t):
+            r = t
+            for p, q in pairs:
+                r = z3.If(t == p, z3.IntVal(q), r)
+            return r
+
+        return f
+
+    tbl = table(list(zip(a, b)))
+    pc = [0 <= x, x < 256]
     # independent statement of the IUPAC complement (upper case; lower case likewise; all else unchanged)
     pairs = {"A": "T", "C": "G", "G": "C", "T": "A", "R": "Y", "Y": "R", "M": "K", "K": "M", "S": "S", "W": "W", "H": "D", "D": "H", "B": "V", "V": "B", "N": "N"}
-    want = ident
-    for u, w in pairs.items():
-        want = z3.Store(want, ord(u), ord(w))
-        want = z3.Store(want, ord(u.lower()), ord(w.lower()))
+    want = table([(ord(u), ord(w)) for u, w in pairs.items()] + [(ord(u.lower()), ord(w.lower())) for u, w in pairs.items()])
     is_upper = lambda t: z3.And(65 <= t, t <= 90)
     is_lower = lambda t: z3.And(97 <= t, t <= 122)
     return [
-        ("involution-on-every-byte", pc, tbl[tbl[x]] == x),
-        ("is-the-iupac-complement", pc, tbl[x] == want[x]),
-        ("case-preserving", pc, z3.And(is_upper(x) == is_upper(tbl[x]), is_lower(x) == is_lower(tbl[x]))),
-        ("stays-a-byte", pc, z3.And(0 <= tbl[x], tbl[x] < 256)),
+        ("involution-on-every-byte", pc, tbl(tbl(x)) == x),
+        ("is-the-iupac-complement", pc, tbl(x) == want(x)),
+        ("case-preserving", pc, z3.And(is_upper(x) == is_upper(tbl(x)), is_lower(x) == is_lower(tbl(x)))),
+        ("stays-a-byte", pc, z3.And(0 <= tbl(x), tbl(x) < 256)),
+        ("filler-is-its-own-complement", [], tbl(z3.IntVal(ord("N"))) == ord("N")),
     ]
 
 
@@ -331,3 +336,48 @@ def c03_chunks_cover_the_row():
         ("chunks-abut", pc + [k < q], k * B + chunk_len(T, B, k) == (k + 1) * B),
         ("last-chunk-ends-the-row", pc + [k == q], k * B + chunk_len(T, B, k) == T),
     ]
+
+
+def c15_cache_invariant():
+    """C15 over the contracts: check_for_index_files accepts the cache iff both files exist and are strictly
+    newer than the FASTA (proved of the real code); replace_file makes a cache file appear under its final name
+    only complete (proved of the real code); write_index / write_assembly write through replace_file; run_indexing
+    derives both from the current FASTA.  Per cache file the invariant
+        FI(file):  file exists and file.mtime > fasta.mtime  ==>  file is complete and derived from the current content
+    is preserved by every step of every process (rewrite of the FASTA at the current clock value, deletion of a
+    cache file, the atomic appearance of a freshly written cache file - also when another process does it, and
+    at every crash point since a crash only omits later steps), so an accepted cache is the current one."""
+    R = smt.Real
+    mt_f, v_f, now = z3.Real("mt_fasta"), z3.Int("ver_fasta"), z3.Real("now")
+
+    def file(n):
+        return {"ex": z3.Bool(n + "_exists"), "mt": z3.Real(n + "_mtime"), "v": z3.Int(n + "_ver"), "ok": z3.Bool(n + "_complete")}
+
+    def FI(f, mt_f, v_f):
+        return z3.Implies(z3.And(f["ex"], f["mt"] > mt_f), z3.And(f["ok"], f["v"] == v_f))
+
+    def clock(f, now):
+        return z3.Implies(f["ex"], f["mt"] <= now)
+
+    fai, agp = file("fai"), file("agp")
+    inv = [FI(fai, mt_f, v_f), FI(agp, mt_f, v_f), clock(fai, now), clock(agp, now), mt_f <= now]
+    accepted = z3.And(fai["ex"], agp["ex"], fai["mt"] > mt_f, agp["mt"] > mt_f)  # contract of check_for_index_files
+    out = [("accepted-cache-is-current", inv + [accepted], z3.And(fai["ok"], agp["ok"], fai["v"] == v_f, agp["v"] == v_f))]
+    # step: the FASTA is rewritten with new content at a later time of a monotone clock
+    mt2, v2, now2 = z3.Real("mt_fasta2"), z3.Int("ver_fasta2"), z3.Real("now2")
+    rewrite = [mt2 >= now, now2 >= mt2, v2 != v_f]
+    for f in (fai, agp):
+        out.append((f"rewrite-keeps-invariant[{'fai' if f is fai else 'agp'}]", inv + rewrite, z3.And(FI(f, mt2, v2), clock(f, now2))))
+    # step: a cache file is deleted
+    gone = dict(fai, ex=z3.BoolVal(False))
+    out.append(("delete-keeps-invariant", inv, FI(gone, mt_f, v_f)))
+    # step: a process that indexed the current content makes a complete cache file appear (replace_file)
+    t = z3.Real("t_write")
+    new = {"ex": z3.BoolVal(True), "mt": t, "v": v_f, "ok": z3.BoolVal(True)}
+    out.append(("atomic-write-keeps-invariant", inv + [t >= now], z3.And(FI(new, mt_f, v_f), clock(new, t))))
+    # the other file's invariant does not mention this file: steps of other processes cannot break it (stability)
+    out.append(("other-file-unaffected", inv + [t >= now], FI(agp, mt_f, v_f)))
+    # what the repaired defect looked like: a file visible under its final name while still incomplete breaks FI
+    partial = {"ex": z3.BoolVal(True), "mt": t, "v": v_f, "ok": z3.BoolVal(False)}
+    out.append(("non-atomic-write-would-break-it", [t > mt_f], z3.Not(FI(partial, mt_f, v_f))))
+    return out
